@@ -125,7 +125,7 @@ func main() {
 	}
 	os.Remove(*outp)
 	self, _ := os.Executable()
-	start, died := 0, 0
+	start, died, slow := 0, 0, 0
 	for start < *n {
 		args := []string{"-worker", "-code", *codeHex, "-input", *inputHex, "-gas", strconv.FormatInt(*gasFlag, 10), "-value", strconv.FormatInt(*valueFlag, 10), "-profile", *profile, "-seed", strconv.FormatInt(*seed, 10), "-n", strconv.Itoa(*n),
 			"-out", *outp, "-from", strconv.Itoa(start), "-timeout", timeout.String(), "-histseed", strconv.FormatInt(*histseed, 10)}
@@ -143,6 +143,38 @@ func main() {
 		if ee, ok := err.(*exec.ExitError); ok && ee.ExitCode() == exitTimeout {
 			outcome = "timeout"
 		}
+		if outcome == "timeout" {
+			// The watchdog measures wall-clock time: on a loaded machine a harmless case can exceed it.  The case is run again,
+			// alone, with ten times the budget; only a case that exceeds that as well is reported as not finishing.
+			retryOut := *outp + ".retry"
+			os.Remove(retryOut)
+			rargs := append([]string{}, args...)
+			for k := range rargs {
+				switch rargs[k] {
+				case "-n":
+					rargs[k+1] = strconv.Itoa(done + 1)
+				case "-from":
+					rargs[k+1] = strconv.Itoa(done)
+				case "-out":
+					rargs[k+1] = retryOut
+				case "-timeout":
+					rargs[k+1] = (10 * *timeout).String()
+				}
+			}
+			rcmd := exec.Command(self, rargs...)
+			if rerr := rcmd.Run(); rerr == nil && countLines(retryOut) == 1 {
+				if line, err := os.ReadFile(retryOut); err == nil {
+					f, _ := os.OpenFile(*outp, os.O_APPEND|os.O_WRONLY|os.O_CREATE, 0644)
+					f.Write(line)
+					f.Close()
+					os.Remove(retryOut)
+					slow++
+					start = done + 1
+					continue
+				}
+			}
+			os.Remove(retryOut)
+		}
 		id := caseID(*seed, done, *histseed)
 		sim.VMNoCalibrate = true // regenerate without executing anything (the gas limit shown is the calibration limit)
 		c := sim.VMGenerators[*profile](id)
@@ -156,5 +188,5 @@ func main() {
 		f.Close()
 		start = done + 1
 	}
-	fmt.Fprintf(os.Stderr, "vmrun: %d cases, profile %s, worker restarts %d\n", *n, *profile, died)
+	fmt.Fprintf(os.Stderr, "vmrun: %d cases, profile %s, worker restarts %d (of which %d finished when run again alone with ten times the watchdog)\n", *n, *profile, died, slow)
 }
